@@ -371,11 +371,19 @@ func (g *Gen) HistoryReopen() []E {
 	}
 	if g.P.CloseOps {
 		evs = append(evs, E{"op": "Close"})
-		for i := 0; i < 6; i++ {
-			e := g.event(g.weightedOp())
+		// every kind of operation on the closed handle
+		kinds := []string{"CreateCollection", "DropCollection", "HasCollection", "ListCollections", "Insert", "InsertOne", "Save",
+			"ReplaceById", "UpdateById", "Update", "UpdateFunc", "Delete", "DeleteById", "CreateIndex", "DropIndex", "HasIndex",
+			"ListIndexes", "FindById", "FindAll", "ForEach", "FindFirst", "Count", "Exists", "Derived"}
+		g.r.Shuffle(len(kinds), func(i, j int) { kinds[i], kinds[j] = kinds[j], kinds[i] })
+		for _, k := range kinds {
+			e := g.event(k)
 			e["audit"] = false
 			evs = append(evs, e)
 		}
+		evs = append(evs, E{"op": "Export", "c": g.colls[0], "path": "closed.json", "audit": false},
+			E{"op": "Import", "c": "imp-closed", "path": "closed.json", "audit": false},
+			E{"op": "CreateByQuery", "name": "byq-closed", "c": g.colls[0], "q": []interface{}{}, "audit": false})
 		evs = append(evs, E{"op": "Close"})
 		evs = append(evs, E{"op": "Reopen", "audit": true})
 		for i := 0; i < 4; i++ {
